@@ -10,7 +10,9 @@ use crate::sym::*;
 use crate::vcover;
 use cozy_chess::*;
 
-/// Cube selector for the number of checkers: 0, 1, 2 (= two or more), 3 (= any).
+/// Cube selector for the number of checkers: 0, 1, 2 (= two or more);
+/// 3 = none and no en-passant file, 4 = none and an en-passant file (sub-cubes of 0
+/// for the pawn generator, whose not-in-check instance is the largest query); 9 = any.
 fn ck_cube<N: Nd>(n: &mut N, p: &Pos, ck: u8) -> u64 {
     let (c, _) = refm::checkers_and_pins(p, p.stm as usize);
     let k = c.count_ones();
@@ -18,6 +20,8 @@ fn ck_cube<N: Nd>(n: &mut N, p: &Pos, ck: u8) -> u64 {
         0 => n.assume(k == 0),
         1 => n.assume(k == 1),
         2 => n.assume(k >= 2),
+        3 => n.assume(k == 0 && p.ep >= 8),
+        4 => n.assume(k == 0 && p.ep < 8),
         _ => {}
     }
     c
@@ -86,9 +90,9 @@ pub fn c01_origin<N: Nd>(n: &mut N, kind: u8, ck: u8) {
     assert!(calls <= 2);
     let ep_attacker = p.ep < 8 && refm::pawn_att(bit(f), p.stm as usize) & bit(refm::ep_square(&p)) != 0;
     assert!(calls < 2 || (kind_is(&p, f, PAWN) && ep_attacker));
-    vcover!(legal, "@(pawn|knight|bishop|rook|queen)_c[01]|king a legal move");
+    vcover!(legal, "@(pawn|knight|bishop|rook|queen)_c[0134]|king a legal move");
     vcover!(legal && p.col[p.stm as usize] & bit(t) != 0, "@king_c0 a legal castling move");
-    vcover!(legal && pr != 0, "@pawn_c[01] a legal promotion");
+    vcover!(legal && pr != 0, "@pawn_c[013] a legal promotion");
     vcover!(legal && p.ep < 8 && t == refm::ep_square(&p) && kind_is(&p, f, PAWN), "@pawn_c[01] a legal en passant capture");
     vcover!(!legal && refm::pseudo_targets(&p, f) & bit(t) != 0 && p.col[p.stm as usize] & bit(f) != 0, "@(pawn|knight|bishop|rook|queen|king)_c pseudo-legal but illegal");
 }
@@ -116,7 +120,7 @@ pub fn c01_gen<N: Nd>(n: &mut N, kind: u8, ck: u8) {
     let mut calls = 0u32;
     let mut count = 0u32;
     let mut shape_ok = true;
-    let r = b.verif_add_legals(kind, ck >= 1, sq(f).bitboard(), &mut |pm: PieceMoves| {
+    let r = b.verif_add_legals(kind, ck == 1 || ck == 2, sq(f).bitboard(), &mut |pm: PieceMoves| {
         calls += 1;
         shape_ok &= !pm.is_empty() && pm.to.0 != 0 && pm.from as u8 == f;
         shape_ok &= pm.piece as u8 == kind;
@@ -132,10 +136,10 @@ pub fn c01_gen<N: Nd>(n: &mut N, kind: u8, ck: u8) {
     assert!(calls <= 2);
     let ep_attacker = p.ep < 8 && refm::pawn_att(bit(f), p.stm as usize) & bit(refm::ep_square(&p)) != 0;
     assert!(calls < 2 || (kind as usize == PAWN && ep_attacker));
-    vcover!(legal, "@(pawn|knight|bishop|rook|queen)_c[01]|king a legal move");
+    vcover!(legal, "@(pawn|knight|bishop|rook|queen)_c[0134]|king a legal move");
     vcover!(legal && p.col[p.stm as usize] & bit(t) != 0, "@king_c0 a legal castling move");
-    vcover!(legal && pr != 0, "@pawn_c[01] a legal promotion");
-    vcover!(legal && p.ep < 8 && t == refm::ep_square(&p), "@pawn_c[01] a legal en passant capture");
+    vcover!(legal && pr != 0, "@pawn_c[013] a legal promotion");
+    vcover!(legal && p.ep < 8 && t == refm::ep_square(&p), "@pawn_c[14] a legal en passant capture");
     vcover!(!legal && refm::pseudo_targets(&p, f) & bit(t) != 0, "pseudo-legal but illegal");
 }
 
@@ -151,14 +155,14 @@ pub fn c16_gen_abort<N: Nd>(n: &mut N, kind: u8, ck: u8) {
     describe(n, &p, half, full, f, f, 0);
     let b = board_of(&p, half, full, n.u64());
     let mut calls = 0u8;
-    let r = b.verif_add_legals(kind, ck >= 1, sq(f).bitboard(), &mut |_pm: PieceMoves| {
+    let r = b.verif_add_legals(kind, ck == 1 || ck == 2, sq(f).bitboard(), &mut |_pm: PieceMoves| {
         calls += 1;
         calls == stop + 1
     });
     assert!(calls <= stop + 1);
     assert!(r == (calls == stop + 1));
-    vcover!(r && stop == 1, "@pawn_c[01] abort at the second of two batches");
-    vcover!(!r && calls == 1, "@(pawn|knight|bishop|rook|queen)_c[01]|king one batch, no abort");
+    vcover!(r && stop == 1, "@pawn_c4 abort at the second of two batches");
+    vcover!(!r && calls == 1, "@(pawn|knight|bishop|rook|queen)_c[0134]|king one batch, no abort");
 }
 
 /// (3): a generator is silent on a mask that holds none of its pieces.
@@ -170,12 +174,12 @@ pub fn c16_silent<N: Nd>(n: &mut N, kind: u8, ck: u8) {
     describe(n, &p, half, full, 0, 0, 0);
     let b = board_of(&p, half, full, n.u64());
     let mut calls = 0u8;
-    let r = b.verif_add_legals(kind, ck >= 1, BitBoard(mask), &mut |_pm: PieceMoves| {
+    let r = b.verif_add_legals(kind, ck == 1 || ck == 2, BitBoard(mask), &mut |_pm: PieceMoves| {
         calls += 1;
         false
     });
     assert!(!r && calls == 0);
-    vcover!(mask != 0 && p.ep < 8, "non-empty mask with an en passant file");
+    vcover!(mask != 0 && p.ep < 8, "@_c[014] non-empty mask with an en passant file");
 }
 
 /// (4): with two or more checkers only king moves are legal (reference-only).
@@ -213,8 +217,8 @@ pub fn c16_origin_abort<N: Nd>(n: &mut N, kind: u8, ck: u8) {
     //  - it returns false exactly when the listener never answered true.
     assert!(calls <= stop + 1);
     assert!(r == (calls == stop + 1));
-    vcover!(r && stop == 1, "@pawn_c[01] abort at the second of two batches");
-    vcover!(!r && calls == 1, "@(pawn|knight|bishop|rook|queen)_c[01]|king one batch, no abort");
+    vcover!(r && stop == 1, "@pawn_c4 abort at the second of two batches");
+    vcover!(!r && calls == 1, "@(pawn|knight|bishop|rook|queen)_c[0134]|king one batch, no abort");
 }
 
 // ------------------------------------------------------------------ C04
@@ -229,7 +233,7 @@ pub fn c04_vs_ref<N: Nd>(n: &mut N, kind: u8, ck: u8) {
     let b = board_of(&p, half, full, n.u64());
     let legal = refm::legal(&p, f, t, pr);
     assert!(b.is_legal(mv(f, t, pr)) == legal);
-    vcover!(legal, "@(pawn|knight|bishop|rook|queen)_c[01]|king a legal move");
+    vcover!(legal, "@(pawn|knight|bishop|rook|queen)_c[0134]|king a legal move");
     vcover!(legal && p.col[p.stm as usize] & bit(t) != 0, "@king_c0 a legal castling move");
     vcover!(!legal && pr == 6, "king promotion rejected");
 }
@@ -540,6 +544,12 @@ macro_rules! bproofs {
 }
 
 bproofs! {
+    c01_gen_pawn_c3 => |n: &mut _| c01_gen(n, 0, 3);
+    c16_gen_abort_pawn_c3 => |n: &mut _| c16_gen_abort(n, 0, 3);
+    c16_silent_pawn_c3 => |n: &mut _| c16_silent(n, 0, 3);
+    c01_gen_pawn_c4 => |n: &mut _| c01_gen(n, 0, 4);
+    c16_gen_abort_pawn_c4 => |n: &mut _| c16_gen_abort(n, 0, 4);
+    c16_silent_pawn_c4 => |n: &mut _| c16_silent(n, 0, 4);
     c01_gen_pawn_c0 => |n: &mut _| c01_gen(n, 0, 0);
     c16_gen_abort_pawn_c0 => |n: &mut _| c16_gen_abort(n, 0, 0);
     c16_silent_pawn_c0 => |n: &mut _| c16_silent(n, 0, 0);
